@@ -84,11 +84,16 @@ class World:
         return 0
 
     def call(self, ev):
+        """-> None, or (for a script entry (tag, "after")) the exception the caller must raise once the call has done its work:
+        an interruption that surfaces inside a socket call after the kernel has taken the bytes (search only; not in the model)"""
         self.trace.append(ev)
         o = self.pop()
         if isinstance(o, tuple):
             self.faults.append((self.current_op, ev[1] if len(ev) > 1 else None, ev[0], len(self.trace)))
+            if len(o) == 2 and o[1] == "after":
+                return make_exc(o[0])
             raise make_exc(o[0])
+        return None
 
     def reply_to(self, data):
         if self.reply_by_op is not None:
@@ -140,12 +145,14 @@ class FakeSocket:
             raise ConnectionRefusedError(111, "refused by the scripted world")
 
     def sendall(self, data):
-        self.w.call((7, self.sid, bytes(data)))
+        late = self.w.call((7, self.sid, bytes(data)))
         r = self.w.addr_peer(getattr(self, "remote", None), bytes(data)) if self.w.addr_peer else self.w.reply_to(bytes(data))
         self.w.tags.append((self.sid, bytes(data), bytes(r)))
         self.w.sent_by_op.setdefault(self.w.current_op, []).append((self.sid, bytes(data)))
         self.avail += r
         self.owners += [self.w.current_op] * len(r)
+        if late is not None:
+            raise late
 
     def recv(self, size):
         self.w.trace.append((8, self.sid))
@@ -348,6 +355,14 @@ def apply_op(cl, op):
         return cl._fetch_cmd(b"stats", list(op[1]), False)
     if code == 19:
         return cl.close()
+    if code == 20:                          # the subscript forms
+        return cl[op[1]]
+    if code == 21:
+        cl[op[1]] = op[2]
+        return None
+    if code == 22:
+        del cl[op[1]]
+        return None
     raise ValueError(op)
 
 
@@ -477,13 +492,27 @@ def run_pooled(cfg, pcfg, ops, script, choices=(), replies=(), clock=(), reply_b
             created[0] += 1
             Client.__init__(self, *a, **k)
     pmax, pidle = pcfg
-    p = PooledClient(server, max_pool_size=(pmax if pmax < 1 << 30 else None), pool_idle_timeout=pidle, **kw)
-    p.client_class = CountingClient
     clk = list(clock)
+    wall = [0]
 
-    def tick():
-        return clk.pop(0) if clk else 0
-    p.client_pool._idle_clock = tick
+    class FakeTime:
+        """stands in for the `time` module inside pymemcache.pool while the pool is built: the pool picks its own idle clock
+        (time.time, or float when pool_idle_timeout is 0 = never expire).  With a timeout the readings are the scripted ones;
+        without one the wall clock still advances - a pool that looked at it would show."""
+        @staticmethod
+        def time():
+            if pidle:
+                return clk.pop(0) if clk else 0
+            wall[0] += 1000
+            return wall[0]
+    import pymemcache.pool as pool_mod
+    saved_time = pool_mod.time
+    pool_mod.time = FakeTime
+    try:
+        p = PooledClient(server, max_pool_size=(pmax if pmax < 1 << 30 else None), pool_idle_timeout=pidle, **kw)
+    finally:
+        pool_mod.time = saved_time
+    p.client_class = CountingClient
     results = []
     world.reply_by_op = reply_by_op
     for i, op in enumerate(ops):
